@@ -16,6 +16,7 @@ import (
 	"github.com/refraction-networking/uquic/internal/verif/simworld"
 	"github.com/refraction-networking/uquic/internal/verif/specgen"
 	"github.com/refraction-networking/uquic/internal/verif/wiretap"
+	tls "github.com/refraction-networking/utls"
 )
 
 type c02Case struct {
@@ -51,7 +52,9 @@ func TestVerifC02Parrots(t *testing.T) {
 	rtt := 10 * time.Millisecond
 	// (the late duplicates arrive after the handshake is confirmed and its keys are gone)
 	k1 := []simworld.Action{{Kind: "drop"}, {Kind: "dup"}, {Kind: "delay", Delay: 4 * rtt}, {Kind: "dup", Delay: 3 * rtt}, {Kind: "dup", Delay: 12 * rtt}}
-	servers := []string{"default", "retry", "cid20"}
+	// "hrr": the server only accepts a group the client offers no key share for, so the handshake goes through
+	// a HelloRetryRequest and a second ClientHello; "hrr-retry": the same behind a Retry
+	servers := []string{"default", "retry", "cid20", "hrr", "hrr-retry"}
 	dials := l.Pick(3, 5)
 	for _, id := range quicworld.QUICIDNames {
 		for _, sv := range servers {
@@ -103,6 +106,11 @@ func TestVerifC02Parrots(t *testing.T) {
 				opt.VerifySourceAddress = func(net.Addr) bool { return true }
 			case "cid20":
 				opt.ServerCIDLen = 20
+			case "hrr", "hrr-retry":
+				opt.ServerTLS = func(c *tls.Config) { c.CurvePreferences = []tls.CurveID{tls.CurveP384} }
+				if cs.Server == "hrr-retry" {
+					opt.VerifySourceAddress = func(net.Addr) bool { return true }
+				}
 			}
 			ts := quicworld.TransferSpec{Streams: []quicworld.StreamSpec{{Bytes: 2000, Reply: 2000}}, ChunkSeed: uint64(i)}
 			sr := quicworld.RunDialSeries(opt, cs.Dials, ts, 10*time.Second, i*10)
@@ -171,7 +179,7 @@ type c02Derived struct {
 	Suppress  []uint64          `json:"suppress"`
 	Accessors bool              `json:"accessors,omitempty"` // the application calls the spec's read-only accessors (TransportParameterIDs) before dialing
 	UDPMin    int               `json:"udp_min"`
-	Builder   string            `json:"builder"` // keep nil random multi
+	Builder   string            `json:"builder"` // keep nil random multi flight randomflight
 	Server    string            `json:"server"`
 	Sched     simworld.Schedule `json:"schedule"`
 }
@@ -203,6 +211,40 @@ func (d *c02Derived) spec() (*quic.QUICSpec, error) {
 		ps.FrameBuilder = &quic.QUICRandomFrames{MinPING: 0, MaxPING: 3, MinCRYPTO: 1, MaxCRYPTO: 4}
 	case "multi":
 		ps.FrameBuilder = &quic.QUICMultiDatagramFrames{PerDatagram: []quic.QUICRandomFrames{{MinPING: 1, MaxPING: 2, MinCRYPTO: 2, MaxCRYPTO: 3}, {MinPING: 0, MaxPING: 1, MinCRYPTO: 1, MaxCRYPTO: 2}}}
+	case "flight", "randomflight":
+		// whole-flight builders: the tail and the head of the ClientHello in the first datagram, the middle in
+		// as many further datagrams as its (approximately known) length needs; only for the generated hellos
+		l, ok := map[string]int{"hello:small": 209, "hello:mid": 713, "hello:big1": 1063, "hello:pq": 1431, "hello:huge": 2935}[d.Base]
+		if !ok {
+			break // keep the parrot's own builder
+		}
+		const tail, head = 60, 40
+		chunk := 900
+		if m := (l - tail - head) % chunk; m < 80 || m > chunk-80 {
+			chunk = 780
+		}
+		var mids [][2]int // offset, length (negative: stop that many bytes before the end)
+		for off := head; ; off += chunk {
+			if off+chunk >= l-tail {
+				mids = append(mids, [2]int{off, -tail})
+				break
+			}
+			mids = append(mids, [2]int{off, chunk})
+		}
+		if d.Builder == "flight" {
+			f := &quic.QUICFlightFrames{Datagrams: []quic.QUICFrames{{quic.QUICFrameCrypto{Offset: -tail}, quic.QUICFramePing{}, quic.QUICFrameCrypto{Offset: 0, Length: head}}}}
+			for _, m := range mids {
+				f.Datagrams = append(f.Datagrams, quic.QUICFrames{quic.QUICFrameCrypto{Offset: m[0], Length: m[1]}})
+			}
+			ps.FrameBuilder = f
+		} else {
+			f := &quic.QUICRandomFlightFrames{PerDatagram: []quic.QUICRandomFlightDatagram{{
+				CryptoRanges: []quic.QUICCryptoRange{{Offset: -tail}, {Offset: 0, Length: head}}, Frames: quic.QUICRandomFrames{MinCRYPTO: 2, MaxCRYPTO: 4, MinPING: 1, MaxPING: 3}}}}
+			for _, m := range mids {
+				f.PerDatagram = append(f.PerDatagram, quic.QUICRandomFlightDatagram{CryptoRanges: []quic.QUICCryptoRange{{Offset: m[0], Length: m[1]}}, Frames: quic.QUICRandomFrames{MinCRYPTO: 1, MaxCRYPTO: 3}})
+			}
+			ps.FrameBuilder = f
+		}
 	}
 	return &spec, nil
 }
@@ -220,7 +262,7 @@ func TestVerifC02Derived(t *testing.T) {
 	for i := 0; i < n; i++ {
 		d := c02Derived{Base: bases[rng.IntN(len(bases))], SCID: []int{0, 3, 8, 20}[rng.IntN(4)], InitPN: []uint64{0, 1, 2, 255}[rng.IntN(4)],
 			TokenLen: []int{0, 0, 16, 70}[rng.IntN(4)], Randomize: rng.IntN(2) == 0, UDPMin: []int{0, 1200, 1357}[rng.IntN(3)],
-			Builder: []string{"keep", "keep", "nil", "random", "multi"}[rng.IntN(5)], Server: []string{"default", "retry", "cid20"}[rng.IntN(3)]}
+			Builder: []string{"keep", "keep", "nil", "random", "multi", "flight", "randomflight"}[rng.IntN(7)], Server: []string{"default", "retry", "cid20", "hrr", "hrr-retry"}[rng.IntN(5)]}
 		for _, id := range optional {
 			if rng.IntN(4) == 0 {
 				d.Suppress = append(d.Suppress, id)
@@ -261,6 +303,11 @@ func TestVerifC02Derived(t *testing.T) {
 				opt.VerifySourceAddress = func(net.Addr) bool { return true }
 			case "cid20":
 				opt.ServerCIDLen = 20
+			case "hrr", "hrr-retry":
+				opt.ServerTLS = func(c *tls.Config) { c.CurvePreferences = []tls.CurveID{tls.CurveP384} }
+				if cs.Server == "hrr-retry" {
+					opt.VerifySourceAddress = func(net.Addr) bool { return true }
+				}
 			}
 			ts := quicworld.TransferSpec{Streams: []quicworld.StreamSpec{{Bytes: 2000, Reply: 2000}}, ChunkSeed: uint64(i)}
 			sr := quicworld.RunDialSeries(opt, 3, ts, 5*time.Second, i*10)
